@@ -61,6 +61,9 @@ func (n *optNode) flat(out *[]int) {
 	}
 }
 
+// c16FuncForm: build even-numbered interceptors as connect.UnaryInterceptorFunc values (unary sides only)
+var c16FuncForm bool
+
 type evlog struct {
 	mu sync.Mutex
 	ev []string
@@ -135,7 +138,12 @@ func (n *optNode) build(log *evlog, client bool) (connect.ClientOption, connect.
 		ics := make([]connect.Interceptor, len(n.ids))
 		for i, id := range n.ids {
 			if id != 0 {
-				ics[i] = &logIcpt{id: id, log: log}
+				li := &logIcpt{id: id, log: log}
+				ics[i] = li
+				if c16FuncForm && id%2 == 0 {
+					// the same interceptor given as a connect.UnaryInterceptorFunc: lists may mix the two forms
+					ics[i] = connect.UnaryInterceptorFunc(li.WrapUnary)
+				}
 			}
 		}
 		o := connect.WithInterceptors(ics...)
@@ -237,6 +245,8 @@ func C16(r *h.Run) {
 	rng := r.Rng.Fork("c16")
 
 	runOne := func(side string, forest []*optNode) {
+		c16FuncForm = strings.HasSuffix(side, "unary")
+		defer func() { c16FuncForm = false }()
 		log := &evlog{}
 		var flat []int
 		items := make([]string, len(forest))
